@@ -26,6 +26,9 @@ pub const POOL: &[Delims] = &[
     Delims { ds: "(*", de: "*)" },
     Delims { ds: "$^", de: ".+" },
     Delims { ds: "[[", de: "]]" },
+    // strongly asymmetric lengths (long start / one-character end, and the reverse)
+    Delims { ds: "<!-- <", de: ">" },
+    Delims { ds: "#", de: "--#>" },
 ];
 pub const POOL_EDGE_SPACE: &[Delims] = &[Delims { ds: " @", de: "@ " }];
 
@@ -73,6 +76,8 @@ pub enum Kind {
     Targeted,
     Untargeted,
     SkipExpired,
+    /// skip and not yet expired: inert (neither Ready nor Pending)
+    SkipFuture,
     Unregistered,
 }
 pub const ALL_KINDS: &[Kind] = &[
@@ -81,6 +86,7 @@ pub const ALL_KINDS: &[Kind] = &[
     Kind::Targeted,
     Kind::Untargeted,
     Kind::SkipExpired,
+    Kind::SkipFuture,
     Kind::Unregistered,
 ];
 impl Kind {
@@ -92,7 +98,7 @@ impl Kind {
     }
     pub fn tag_name<'a>(&self, tl: &'a str, rm: &'a str) -> &'a str {
         match self {
-            Kind::Expired | Kind::Future | Kind::Later | Kind::SkipExpired => tl,
+            Kind::Expired | Kind::Future | Kind::Later | Kind::SkipExpired | Kind::SkipFuture => tl,
             Kind::Targeted | Kind::Untargeted => rm,
             Kind::Unregistered => "zz",
         }
@@ -106,6 +112,7 @@ impl Kind {
             Kind::Targeted => format!("{rm} name=\"a\""),
             Kind::Untargeted => format!("{rm} name=\"b\""),
             Kind::SkipExpired => format!("{tl} to=\"{TO_EXPIRED}\" skip"),
+            Kind::SkipFuture => format!("{tl} to=\"{TO_FUTURE}\" skip"),
             Kind::Unregistered => format!("zz to=\"{TO_EXPIRED}\""),
         };
         if unwrap {
@@ -192,6 +199,10 @@ pub enum Item {
     /// an element with the unwrap-block attribute but only one line between its tags:
     /// it cannot be unwrapped (three lines: tag, code, tag)
     ShortUnwrap { kind: Kind },
+    /// two elements on one line: side by side, or the second nested in the first
+    Inline2 { k1: Kind, k2: Kind, nested: bool },
+    /// two nested default-strategy blocks whose tags share lines: `<o1><o2>` / body / `</c2></c1>`
+    Block2 { k1: Kind, k2: Kind, body: Vec<Item> },
     /// code? <tag>content</tag> code?   on one line
     Inline {
         kind: Kind,
@@ -214,6 +225,8 @@ pub struct AstParams {
     pub blank: bool,
     pub rich: bool,
     pub short_unwrap: bool,
+    /// two elements starting on the same line (Inline2 / Block2)
+    pub shared_lines: bool,
 }
 
 pub fn size(items: &[Item]) -> usize {
@@ -222,6 +235,7 @@ pub fn size(items: &[Item]) -> usize {
         .map(|i| match i {
             Item::Block { unwrap, body, .. } => (if *unwrap { 4 } else { 2 }) + size(body),
             Item::ShortUnwrap { .. } => 3,
+            Item::Block2 { body, .. } => 2 + size(body),
             _ => 1,
         })
         .sum()
@@ -236,6 +250,8 @@ enum Opt {
     Inline(Kind, bool, bool, bool),
     Block(Kind, bool),
     Short(Kind),
+    Inline2(Kind, Kind, bool),
+    Block2(Kind, Kind),
 }
 
 pub fn gen_doc(ch: &mut Chooser, p: &AstParams) -> Vec<Item> {
@@ -269,6 +285,17 @@ fn gen_list(ch: &mut Chooser, p: &AstParams, budget: &mut usize, depth: usize) -
         for &k in &p.inline_kinds {
             opts.push(Opt::Inline(k, true, true, true));
             opts.push(Opt::Inline(k, false, false, true));
+        }
+        if p.shared_lines {
+            for &k1 in &p.inline_kinds {
+                for &k2 in &p.inline_kinds {
+                    opts.push(Opt::Inline2(k1, k2, false));
+                    opts.push(Opt::Inline2(k1, k2, true));
+                    if depth < p.max_depth && *budget >= 2 {
+                        opts.push(Opt::Block2(k1, k2));
+                    }
+                }
+            }
         }
         if depth < p.max_depth {
             for &k in &p.block_kinds {
@@ -313,6 +340,15 @@ fn gen_list(ch: &mut Chooser, p: &AstParams, budget: &mut usize, depth: usize) -
             Opt::Short(kind) => {
                 *budget -= 3;
                 v.push(Item::ShortUnwrap { kind });
+            }
+            Opt::Inline2(k1, k2, nested) => {
+                *budget -= 1;
+                v.push(Item::Inline2 { k1, k2, nested });
+            }
+            Opt::Block2(k1, k2) => {
+                *budget -= 2;
+                let body = gen_list(ch, p, budget, depth + 1);
+                v.push(Item::Block2 { k1, k2, body });
             }
             Opt::Block(kind, unwrap) => {
                 *budget -= if unwrap { 4 } else { 2 };
@@ -498,6 +534,107 @@ fn render_list(
                     depth: owners.len(),
                 });
                 push_line(r, &text, id, owners, 6, Some(idx));
+            }
+            Item::Inline2 { k1, k2, nested } => {
+                let id = next_id(ctr);
+                let mk = |k: &Kind, n: usize| -> (String, String) {
+                    let extra = if o.tag_ids { format!(" c=\"{}x{}\"", id, n) } else { String::new() };
+                    let name = k.tag_name(&o.names.tl, &o.names.rm).to_string();
+                    (
+                        format!("{}{}{}", o.d.ds, k.open_body(&o.names.tl, &o.names.rm, false, &extra), o.d.de),
+                        close_tag(o.d, &name),
+                    )
+                };
+                let (o1, c1) = mk(k1, 1);
+                let (o2, c2) = mk(k2, 2);
+                let base = r.src.len();
+                let mut text = ind(level);
+                text.push_str(&format!("{}p 1 ", id));
+                let mut span = |text: &mut String, piece: &str| -> (usize, usize) {
+                    let s = base + text.len();
+                    text.push_str(piece);
+                    (s, base + text.len())
+                };
+                let i1 = r.elems.len();
+                let i2 = i1 + 1;
+                let (a1, a2, b1, b2);
+                if *nested {
+                    a1 = span(&mut text, &o1);
+                    text.push_str(&format!(" {}i ", id));
+                    b1 = span(&mut text, &o2);
+                    text.push_str(&format!(" {}j ", id));
+                    b2 = span(&mut text, &c2);
+                    text.push_str(&format!(" {}k ", id));
+                    a2 = span(&mut text, &c1);
+                } else {
+                    a1 = span(&mut text, &o1);
+                    text.push_str(&format!(" {}i ", id));
+                    a2 = span(&mut text, &c1);
+                    text.push_str(&format!(" {}m ", id));
+                    b1 = span(&mut text, &o2);
+                    text.push_str(&format!(" {}j ", id));
+                    b2 = span(&mut text, &c2);
+                }
+                text.push_str(&format!(" {}q 2", id));
+                for (k, op, cl, par) in [
+                    (*k1, a1, a2, owners.last().copied()),
+                    (*k2, b1, b2, if *nested { Some(i1) } else { owners.last().copied() }),
+                ] {
+                    r.elems.push(ElemTruth {
+                        kind: k,
+                        unwrap: false,
+                        inline: true,
+                        open: op,
+                        close: cl,
+                        wrap_open: (0, 0),
+                        wrap_close: (0, 0),
+                        parent: par,
+                        depth: owners.len(),
+                    });
+                }
+                let _ = i2;
+                push_line(r, &text, id, owners, 6, Some(i1));
+            }
+            Item::Block2 { k1, k2, body } => {
+                let id = next_id(ctr);
+                let mk = |k: &Kind, n: usize| -> (String, String) {
+                    let extra = if o.tag_ids { format!(" c=\"{}x{}\"", id, n) } else { String::new() };
+                    let name = k.tag_name(&o.names.tl, &o.names.rm).to_string();
+                    (
+                        format!("{}{}{}", o.d.ds, k.open_body(&o.names.tl, &o.names.rm, false, &extra), o.d.de),
+                        close_tag(o.d, &name),
+                    )
+                };
+                let (o1, c1) = mk(k1, 1);
+                let (o2, c2) = mk(k2, 2);
+                let i1 = r.elems.len();
+                let i2 = i1 + 1;
+                for (k, par) in [(*k1, owners.last().copied()), (*k2, Some(i1))] {
+                    r.elems.push(ElemTruth {
+                        kind: k,
+                        unwrap: false,
+                        inline: false,
+                        open: (0, 0),
+                        close: (0, 0),
+                        wrap_open: (0, 0),
+                        wrap_close: (0, 0),
+                        parent: par,
+                        depth: owners.len(),
+                    });
+                }
+                let il = ind(level).len();
+                let (ls, le) = push_line(r, &format!("{}{}{}", ind(level), o1, o2), String::new(), owners, 2, Some(i1));
+                r.elems[i1].open = (ls + il, ls + il + o1.len());
+                r.elems[i2].open = (ls + il + o1.len(), le);
+                owners.push(i1);
+                owners.push(i2);
+                render_list(body, o, level, owners, r, ctr);
+                owners.pop();
+                owners.pop();
+                let (ls, le) = push_line(r, &format!("{}{}{}", ind(level), c2, c1), String::new(), owners, 3, Some(i1));
+                r.elems[i2].close = (ls + il, ls + il + c2.len());
+                r.elems[i1].close = (ls + il + c2.len(), le);
+                let _ = id;
             }
             Item::ShortUnwrap { kind } => {
                 let id = next_id(ctr);
